@@ -369,8 +369,19 @@ def es5Order (m : String) (r : Run) (d : Done) : Option Nat :=
   | "replace" => inOrder [0, 1, 2] d
   | _ => inOrder [0] d
 
+/-- the abstract operation applied to each operand: ToString (§9.8, hint String) for this, searchString, separator,
+    searchValue / replaceValue, that, and every concat argument (§15.5.4.6 step 5.b); ToInteger / ToNumber / ToUint32
+    (§9.4, §9.3, §9.6: hint Number) for pos, position, start, end, length and limit -/
+def es5Hint (m : String) (who : Nat) : Hint :=
+  if who = 0 then .str else
+  match m with
+  | "charAt" | "charCodeAt" | "slice" | "substring" | "substr" => .num
+  | "indexOf" | "lastIndexOf" | "split" => if who = 1 then .str else .num
+  | _ => .str
+
 def es5Plan (E : Env) (m : String) : Plan where
   next := es5Order m
+  hint := es5Hint m
   finish := fun r d => match pureMethod m with
     | some f => f E (recvOf E r d) (argsOf r d)
     | none => .undef
